@@ -242,7 +242,9 @@ def ncomp_from_gmm(vals: np.ndarray,
             logger.warning(' %i out of %i sub-layers populated by GaussianMixture(%i) - see #119. '
                            'Ruling out %i components as a possibility.',
                            n_eff, n_val, n_val, n_val)
-            abics[n_id] = max(abics) + 1  # The larger the abics score, the worst the fit.
+            # Note: an infinite score (and not just a large one), since the scores can be negative, in
+            # which case a finite boost can still look like an improvement to best_gmm().
+            abics[n_id] = np.inf  # The larger the abics score, the worst the fit.
 
     # Get the interesting information out
     best_model_ind = best_gmm(abics, **kwargs)
